@@ -302,6 +302,6 @@ def coverage(variants):
                 else:
                     missing.append("%s -> %s" % (key, v))
     # a variant `name@form` is a further call form of the declaration that `name` covers
-    unref = sorted(v for v in variants if v not in ref and v.split("@")[0] not in ref)
+    unref = sorted(v for v in variants if v not in ref and v.split("@")[0] not in ref and not variants[v].get("nodecl"))
     return {"declarations": len(decls), "covered": covered, "excluded": excluded, "unmapped": unmapped,
             "missing_variants": missing, "unreferenced_variants": unref, "err": err if not decls else ""}
